@@ -177,6 +177,10 @@ class Skel:
             body = []
             for a in e["arms"]:
                 body += self.ops(a["body"])
+        # iterator adaptors are lazy: the closures of `it.map(f).filter(g)` run per item inside this loop, before BODY
+        sc = list(sc)
+        while sc and sc[-1][0] == "loop":
+            body = list(sc.pop()[1]) + list(body)
         return sc + [("loop", self.norm(body))]
 
     @staticmethod
@@ -317,13 +321,45 @@ class Skel:
         ee_n = self.norm(ee)
         # `if a && b {T}` (nothing in the else branch) is `if a { if b {T} }`; `while a && b {..}` is `while a { if !b {break} .. }`
         conj = self.conjuncts(c)
-        if len(conj) > 1:
-            # ... and with an else branch E: `if a && b {T} else {E}` is `if a { if b {T} else {E} } else {E}`
-            inner = self.norm(tt)
-            for x in reversed(conj):
-                inner = (("if", self.norm(self.ops(x)), inner, ee_n),)
-            return list(inner)
-        return [("if", self.norm(self.ops(c)), self.norm(tt), ee_n)]
+        # ... and with an else branch E: `if a && b {T} else {E}` is `if a { if b {T} else {E} } else {E}`
+        inner = list(self.norm(tt))
+        for x in reversed(conj):
+            vt = hir.variant_test(x)
+            if vt is not None and self.ops(x) == self.ops(vt[0]):          # (a test that has its own op -- a slot test -- stays that op)
+                # a variant test is a two-armed match on that value, however it is spelled (`matches!(x, P)`, `x.is_none()`, `x == E::V`)
+                inner = self.variant_match(vt, inner, list(ee_n))
+            else:
+                inner = [("if", self.norm(self.ops(x)), self.norm(inner), ee_n)]
+        return inner
+
+    def variant_match(self, vt, yes, no):
+        subj, var, pos = vt
+        other = (self.COMPLEMENT[var],) if var in self.COMPLEMENT else None
+        arms = [((var,), yes if pos else no), (other, no if pos else yes)]
+        return self.match_ops(self.ops(subj), arms)
+
+    def tuple_decision(self, e):
+        """`match (a, b) { (P, Q) => A, _ => B }` with binding-free variant patterns is `if matches!(a, P) && matches!(b, Q) { A } else { B }`,
+        i.e. the nest of two-armed matches that branch_ops builds for that condition; None for any other match"""
+        q = e["arms"][0]["pat"] if len(e.get("arms", [])) == 2 else None
+        while q is not None and q.get("k") in ("Ref", "Box", "Deref"):
+            q = q["pat"]
+        if q is None or q.get("k") != "Tuple" or strip(e["scrut"]).get("k") != "Tup":
+            return None
+        d = hir.decision(e)
+        if d is None:
+            return None
+        tests, a_, b_ = d
+        tested = {id(t[0]) for t in tests}
+        pre = []
+        for x in strip(e["scrut"])["elems"]:
+            if id(x) not in tested:
+                pre += self.ops(x)
+        no = list(self.norm(self.ops(b_)))
+        inner = list(self.norm(self.ops(a_)))
+        for vt in reversed(tests):
+            inner = self.variant_match(vt, inner, no)
+        return pre + inner
 
     @staticmethod
     def conjuncts(c):
@@ -635,6 +671,9 @@ class Skel:
             br = self.as_branch(e)
             if br:
                 return self.branch_ops(br, None)
+            td = self.tuple_decision(e)
+            if td is not None:
+                return td
             arms = []
             for a in e["arms"]:
                 g = self.ops(a["guard"]) if a.get("guard") else []
@@ -657,8 +696,16 @@ class Skel:
         if k == "Continue":
             return self.ops(e.get("e")) + [("continue",)]
         if k == "Binary":
-            out = self.ops(e["l"]) + self.ops(e["r"])
             l, r = strip(e["l"]), strip(e["r"])
+            # `buffer.len() == 0` is `buffer.is_empty()` (and `0 < buffer.len()` / `buffer.len() != 0` its negation)
+            for a, b_, flip in ((l, r, False), (r, l, True)):
+                if a["k"] == "MethodCall" and a["method"] == "len" and not a["args"] and strip(a["recv"])["k"] == "Path" and is_string_ty(strip(a["recv"]).get("ty")) \
+                        and field_path(a["recv"]) and len(field_path(a["recv"])) == 1 and b_["k"] == "Lit" and b_["lit"].get("v") == 0:
+                    if e["op"] in ("==", "Eq"):
+                        return [("noprogress",)]
+                    if e["op"] in ("!=", "Ne") or (e["op"] in ("<", "Lt") and flip) or (e["op"] in (">", "Gt") and not flip):
+                        return [("noprogress",), ("not",)]
+            out = self.ops(e["l"]) + self.ops(e["r"])
             # character-class tests of the scanners (`head_char() == '+'`) and progress tests on the cursor (`self.head == start`)
             for a, b_ in ((l, r), (r, l)):
                 if b_["k"] == "Lit" and b_["lit"].get("lit") == "char":
@@ -834,6 +881,8 @@ def rule_P_PRIM(ctx):
             return strip(b_["stmts"][0]["expr"])
         return hir.last_expr(it["body"])
     b = last(fn("can_consume"))
+    if b["k"] == "Binary" and b["op"] in (">", "Gt"):          # `len_env > head` is `head < len_env`
+        b = dict(b, op="<", l=b["r"], r=b["l"])
     ctx.ob("P-PRIM", "can_consume = self.head < self.len_env", b["k"] == "Binary" and b["op"] in ("<", "Lt") and field_path(b["l"]) == ("self", "head")
            and field_path(b["r"]) == ("self", "len_env"), "")
     b = last(fn("head_char"))
